@@ -3,6 +3,7 @@ package rules
 import (
 	"fmt"
 	"go/types"
+	"reflect"
 	"strings"
 
 	"golang.org/x/tools/go/ssa"
@@ -16,8 +17,8 @@ func init() {
 	Registry["C16"] = c16
 	Metas["C16"] = Meta{Level: "other", NeedCG: true,
 		Technique: "static analysis: receiver-provenance of every IncrementAccum call, who-may-write + effect-set check of the cached fields, finite-domain decision table of CompareAccum, hidden-state (non-persisted field) lint on the persisted validator set, slot-bookkeeping obligations of the priority queue",
-		Explain: "Static analysis of gemmill/types/validator_set.go and its callers. Decided: (R1) every IncrementAccum call has a receiver that is a fresh Copy()/NewValidatorSet()/literal on all paths (never a shared set loaded from a field); (R2) the set's slice is mutated only by Add/Update/Remove (and constructors), and every such mutation path that reports success stores proposer=nil and totalVotingPower=0; totalVotingPower has no other non-zero writer than its lazy getter; accessors hand out copies; (R3) CompareAccum's decision table over (accum order x address order x nil receiver) is the strict total order 'higher accum, ties by lower address' and panics only on identical addresses; accumComparable.Less is strict '>'; (R4) no non-persisted field of the persisted ValidatorSet carries state that cannot be recomputed (only lazy getters and copies may write it); (R5) Add keeps the slice sorted and duplicate-free, NewValidatorSet sorts before first use; (R6) the go-common priority queue behind IncrementAccum keeps pq[k].index == k in Push/Swap, and Update/Heap.Update/Peek/Less/Pop address the root and the recorded slot. NOT decided: the proportionality counts, batched-vs-single increment equality (numeric; an independent experiment during seeding showed IncrementAccum(k) already differs from k x IncrementAccum(1) on the pinned tree — outside what a static rule can decide), overflow.",
-		Assume: []string{"container/heap's Push/Fix/Pop are correct given the Interface contract checked by R6", "bytes.Compare is a total order on addresses"},
+		Explain:   "Static analysis of gemmill/types/validator_set.go and its callers. Decided: (R1) every IncrementAccum call has a receiver that is a fresh Copy()/NewValidatorSet()/literal on all paths (never a shared set loaded from a field); (R2) the set's slice is mutated only by Add/Update/Remove (and constructors), and every such mutation path that reports success stores proposer=nil and totalVotingPower=0; totalVotingPower has no other non-zero writer than its lazy getter; accessors hand out copies; (R3) CompareAccum's decision table over (accum order x address order x nil receiver) is the strict total order 'higher accum, ties by lower address' and panics only on identical addresses; accumComparable.Less is strict '>'; (R4) no non-persisted field of the persisted ValidatorSet carries state that cannot be recomputed (only lazy getters and copies may write it); (R5) Add keeps the slice sorted and duplicate-free, NewValidatorSet sorts before first use; (R6) the go-common priority queue behind IncrementAccum keeps pq[k].index == k in Push/Swap, and Update/Heap.Update/Peek/Less/Pop address the root and the recorded slot. NOT decided: the proportionality counts, batched-vs-single increment equality (numeric; an independent experiment during seeding showed IncrementAccum(k) already differs from k x IncrementAccum(1) on the pinned tree — outside what a static rule can decide), overflow.",
+		Assume:    []string{"container/heap's Push/Fix/Pop are correct given the Interface contract checked by R6", "bytes.Compare is a total order on addresses"},
 	}
 }
 
@@ -161,7 +162,10 @@ func valsetCacheRule(c *Ctx, id string) {
 		}
 	}
 	// accessors hand out copies
-	for _, acc := range []struct{ fn string; res int }{{valsT + ".GetByAddress", 1}, {valsT + ".GetByIndex", 1}, {valsT + ".Proposer", 0}} {
+	for _, acc := range []struct {
+		fn  string
+		res int
+	}{{valsT + ".GetByAddress", 1}, {valsT + ".GetByIndex", 1}, {valsT + ".Proposer", 0}} {
 		f := c.Anchor(rule, acc.fn)
 		if f == nil {
 			continue
@@ -245,6 +249,24 @@ func c16R4(c *Ctx) {
 		return
 	}
 	st := obj.Type().Underlying().(*types.Struct)
+	// the exported fields of the persisted set and of its elements are what go-wire saves and what
+	// Validator.Hash()/ValidatorSet.Hash() cover; go-wire skips a field tagged json:"-"
+	for _, tn := range []string{"ValidatorSet", "Validator"} {
+		o := pk.Types.Scope().Lookup(tn)
+		if o == nil {
+			c.R.Missing(rule, "types."+tn)
+			continue
+		}
+		ts, _ := o.Type().Underlying().(*types.Struct)
+		for i := 0; ts != nil && i < ts.NumFields(); i++ {
+			fld := ts.Field(i)
+			if !fld.Exported() {
+				continue
+			}
+			tag := reflect.StructTag(ts.Tag(i)).Get("json")
+			c.R.Ob(rule, "persisted:"+tn+"."+fld.Name(), tag != "-", c.P.Pos(fld.Pos()), "", "an exported field of the persisted validator set tagged json:\"-\" is skipped by go-wire: it is neither saved with the state nor covered by the validators hash, so a restarted replica loses it (accum -> different proposers)")
+		}
+	}
 	getter := map[string]string{"proposer": valsT + ".Proposer", "totalVotingPower": valsT + ".TotalVotingPower"}
 	for i := 0; i < st.NumFields(); i++ {
 		fld := st.Field(i)
@@ -288,14 +310,18 @@ func c16R5(c *Ctx) {
 		for _, r := range f.Returns() {
 			v := f.ReturnValues(r)[0]
 			if cst, ok := v.(*ssa.Const); ok && cst.Value != nil && cst.Value.ExactString() == "false" {
-				if f.HasGuard(r, func(g string) bool { return strings.HasPrefix(g, "(bytes.Compare(a0.Validators[sort.Search(") && strings.HasSuffix(g, " == 0)") }) {
+				if f.HasGuard(r, func(g string) bool {
+					return strings.HasPrefix(g, "(bytes.Compare(a0.Validators[sort.Search(") && strings.HasSuffix(g, " == 0)")
+				}) {
 					hasFalse = true
 				}
 			}
 		}
 		c.R.Ob(rule, "Add:refuses-duplicate", hasFalse, c.P.Pos(f.F.Pos()), fname(f), "Add must return false for an address already present")
 		ins := false
-		for _, st := range f.Stores(func(a string) bool { return strings.HasPrefix(a, "make([]*gemmill/types.Validator,(len(a0.Validators) + 1))[sort.Search(") }) {
+		for _, st := range f.Stores(func(a string) bool {
+			return strings.HasPrefix(a, "make([]*gemmill/types.Validator,(len(a0.Validators) + 1))[sort.Search(")
+		}) {
 			_ = st
 			ins = true
 		}
@@ -314,7 +340,9 @@ func c16R5(c *Ctx) {
 	}
 	if f := c.Anchor(rule, valsT+".Hash"); f != nil {
 		ok := false
-		for _, st := range f.Stores(func(a string) bool { return strings.HasPrefix(a, "make([]gemmill/modules/go-merkle.Hashable,len(a0.Validators))[(phi(-1|loop) + 1)]") }) {
+		for _, st := range f.Stores(func(a string) bool {
+			return strings.HasPrefix(a, "make([]gemmill/modules/go-merkle.Hashable,len(a0.Validators))[(phi(-1|loop) + 1)]")
+		}) {
 			if cfgx.Expr(st.Val) == "a0.Validators[(phi(-1|loop) + 1)]" {
 				ok = true
 			}
